@@ -108,3 +108,41 @@ def apply_view_flat(data, steps):
         assert st.get("cols") is None
         data = select_rows(data, st["rows"])
     return data
+
+
+# ---------------------------------------------------------------------------------------------------- characters beyond 8 bits
+# Text handed over as python str (str, list of str, numpy string arrays, pandas Series) can hold characters that are no byte at
+# all.  None of them is a member of any alphabet (all alphabets are ASCII); the dangerous ones are those whose code point,
+# cut to 8 or 16 bits, IS a member (or the lower-case twin of a member): 'A' + 0x100 = U+0141, 'a' + 0x10000 = U+10061 ...
+SURROGATES = range(0xD800, 0xE000)
+MAX_CODE_POINT = 0x10FFFF
+
+
+def case_twins(alphabet):
+    """the bytes an alphabet encoding accepts: the members and the lower-case twins of its letters (ascending)"""
+    out = set()
+    for m in alphabet_bytes(alphabet):
+        out.add(m)
+        if 65 <= m <= 90:
+            out.add(m + 32)
+    return sorted(out)
+
+
+def wide_points(alphabet, offsets):
+    """[(code point, accepted byte it truncates to)]: member / twin + offset, for offsets that are multiples of 256"""
+    out = []
+    for b in case_twins(alphabet):
+        for off in offsets:
+            cp = b + off
+            assert off % 256 == 0 and off > 0
+            if cp <= MAX_CODE_POINT and cp not in SURROGATES:
+                out.append((cp, b))
+    return out
+
+
+def classify_wide(fpoints, alphabet):
+    """relation of wrongly accepted characters >= 256 to the alphabet (used only to name the failure class)"""
+    w = [f for f in fpoints if f >= 256]
+    if w and all(valid(f % 256, alphabet) for f in w):
+        return "truncated-code-point-in-alphabet"       # cut to 8 bits (hence also: to 16 bits, if that is below 256) a member
+    return "other"
